@@ -1035,3 +1035,14 @@ Theorem oracle_fifo_sound : forall resp nf nb ls pid (f : msg -> bool),
 Proof.
   intros. apply subseqb_complete; [apply msg_eqb_spec|]. apply net_fifo_per_sender.
 Qed.
+
+(* the exit of a live actor is always announced: the Terminate frame does not depend on any
+   bookkeeping of what was advertised (which inbound messages may prune in the code) *)
+Theorem exit_announced : forall st pid,
+  t_alive (tg st pid) = true ->
+  In (FTerm pid) (ctl (do_exit st pid)) /\ t_alive (tg (do_exit st pid) pid) = false.
+Proof.
+  intros st pid Ha. unfold do_exit. rewrite Ha. cbn [ctl tg set_y]. split.
+  - apply in_or_app. right. now left.
+  - rewrite upd_same. reflexivity.
+Qed.
